@@ -156,6 +156,13 @@ def run():
                 if len(a) == len(b) and 2 <= len(a) <= 5 and not any(math.isinf(v) for v in a + b):
                     cmp("spearmanr", lambda x, y: A.m_spearmanr(x, y)[0], lambda x, y: scipy.stats.spearmanr(x, y)[0], a, b)
                     cmp("kendalltau", lambda x, y: A.m_kendalltau(x, y)[0], lambda x, y: scipy.stats.kendalltau(x, y)[0], a, b)
+        # searchsorted (insertion index as a count)
+        for v in VECTORS:
+            if any(x != x for x in v) or not v:
+                continue
+            for side in ("left", "right"):
+                cmp("searchsorted-" + side, lambda a, side=side: np.searchsorted(np.sort(a), a, side=side),
+                    lambda a, side=side: np.searchsorted(np.sort(np.asarray(a, dtype=float)), np.asarray(a, dtype=float), side=side), v)
         # masked arrays
         for v, mask in (([1.0, 0.0, 1.0], [False, False, True]), ([1.0, 1.0], [True, True]),
                         ([0.0, 1.0, 1.0, 0.0], [False, True, False, False])):
